@@ -112,15 +112,15 @@ CLAIMED.update({
 CLAIMED.update({
     'C07': dict(
         text='Lean state machine of the object model (registries, copy numbers, origin numbering/back-filling). Theorems: '
-             'copy_unique_reachable (in every reachable state, same-named objects of one set have distinct copy '
-             'numbers), reference_bytes/objref_bytes (a reference is written as, and decodes to, the target\'s '
+             'copy_unique_reachable (in every reachable state, same-named objects of one type added through one logical '
+             'file have distinct copy numbers, whatever sets of that type they are in), reference_bytes/objref_bytes (a reference is written as, and decodes to, the target\'s '
              'identity), origin_backfilled, logical_files_isolated. Tie: histories of add_* calls (valid/rejected, '
              'interleaved over logical files) on the real API vs the state machine; oracle: unique identities, origin '
              'fields and reference resolution in the decoded files (history and whole-file streams).',
-        note='PARTIAL vs the statement: uniqueness is proved per set, which is what the code implements; uniqueness per '
-             'set TYPE fails for same-named objects in differently named sets (KNOWN FINDING). References are only '
-             'class-checked by the code: that the target lies in the same logical file is checked by the oracle on '
-             'generated (valid) graphs, not proved.',
+        note='The former known finding (copy numbers per set object, duplicates across differently named sets) is repaired '
+             'in /repo (fix eaf1436) and the theorem now holds per logical file. PARTIAL: that a reference target lies in '
+             'the same logical file and is of the type its attribute denotes is refused by the code and checked by '
+             'exhaustive streams over the pinned schema, not proved.',
         technique='Lean 4 proof (invariant by induction over operation histories) + history correspondence + file oracle',
         design='§5 C07'),
     'C09': dict(
